@@ -7,9 +7,10 @@ import (
 func init() {
 	register(stream{
 		name: "selparse",
-		rule: "selector.Parse on \".\" followed by every string of length ≤ N (N=4 quick, 6 thorough) over the 11-character alphabet . [ ] \" ? : - 0 1 a \\ — i.e. every balanced and unbalanced combination of quotes, brackets, dots and question marks — plus strings that do not start with a dot, mutations of valid selectors and non-ASCII field names; compared: accept/reject, the field-by-field dump of every segment through its exported accessors, and Selector.String(). Non-trivial = the text contains a quote, a bracket or a question mark. Distinct = distinct protocol lines.",
+		rule: "selector.Parse on \".\" followed by every string of length ≤ N (N=4 quick, 6 thorough) over the 11-character alphabet . [ ] \" ? : - 0 1 a \\ — i.e. every balanced and unbalanced combination of quotes, brackets, dots and question marks — plus strings that do not start with a dot, mutations of valid selectors and non-ASCII field names; compared: accept/reject, the field-by-field dump of every segment through its exported accessors, and Selector.String(). Added later: every accepted text is also RESOLVED on two probe values (a map with the keys \"\", a, 0, 1 and a list) and compared with the model's parse-then-resolve, so that a segment that keeps its text but changes its kind is seen. Non-trivial = the text contains a quote, a bracket or a question mark. Distinct = distinct protocol lines.",
 		run:  runSelParseStream,
 		eval: evalSelector,
+		cmp:  cmpImplSpec, // the probe lines (sel.select) carry the model's and the specification's answer
 	})
 }
 
@@ -23,14 +24,28 @@ func runSelParseStream(c *ctx) error {
 			func(string) bool { return strings.ContainsAny(t, "\"[]?") },
 			func(g string) []string { return []string{tag + ":" + strings.Fields(g)[0]} })
 	}
-	allStrings(".[]\"?:-01a\\", n, func(s string) { emit("."+s, "parse") })
+	// what an accepted text MEANS is compared as well: it is resolved on two probe values (a map with the keys "", a, 0, 1 and
+	// a list), so that a segment that keeps its text but changes its kind (field ↔ index) is seen
+	probes := []string{"m(:i1,61:i2,30:i3,31:l(i7,i8))", "l(i10,i11,m(:i5,61:i6))"}
+	probe := func(t, tag string) {
+		if !strings.HasPrefix(goParseSel(t), "ok") {
+			return
+		}
+		for _, v := range probes {
+			c.emitG("sel.select "+hxs(t)+" "+lettersOracle(t)+" "+v, "selector.Parse", func(string) bool { return true },
+				func(g string) []string { return []string{tag + "-probe:" + strings.Fields(g)[0]} })
+		}
+	}
+	allStrings(".[]\"?:-01a\\", n, func(s string) { emit("."+s, "parse"); probe("."+s, "parse") })
 	for _, s := range []string{"", "a", "[0]", "?", "\"", "a.b", "[]", ".é", ".ß?", ".日本", ".a\xff", ".\xc3", "._x$-1", ".a b", ".9a",
 		`.["é"]`, `.["a.b"]`, `.["a[0]"]`, `.["a\"b"]`, `.["a\\"]`, `.["a:b"]`, `.[" "]`, ".[00]", ".[-0]", ".[007]?", ".[+1]",
 		".[9007199254740991]", ".[9007199254740992]", ".[-9007199254740991]", ".[-9007199254740992]", ".[99999999999999999999]",
 		".[1:9007199254740992]", ".[-9007199254740992:]", ".[:99999999999999999999]", ".[1:2:3]", ".[::]", ".[-:1]", ".[1:-]", ".[-:-]",
 		".a???", ".??", ".?.?", ".a.?.b", ".a..b", "...", ".a...b", ".[0].", ".[0]..", ".a.[0]", `.foo["bar`, `.foo"`, `.foo["]`, `.["]"]`, `."a"`, `.a"b"c`,
+		`.[""]`, `.[""]?`, `.["0"]`, `.["1"][0]`, `.[2][""]`, `.[2]["a"]`, `.["a"]`, `.a`, `.[0]`, `.[1]`, `.["1"][-1]`,
 	} {
 		emit(s, "parse-special")
+		probe(s, "parse-special")
 	}
 	// mutations of valid selectors
 	valid := []string{`.foo.bar[0]?["k"][1:2][]?`, `.a[-1:][]["x y"]?.b`, `.["a"]["b"]?[0][-1]?`, `.x?.y?.z?[:3]`}
